@@ -15,9 +15,11 @@ T0=$(date +%s)
 
 # 1. scratch copy of the repository's working tree, seams inserted mechanically
 rsync -a --exclude .git /repo/ "$SCR/repo/" || exit 2
-if [ -x "$VERIF/bin/pegsim-instrument" ]; then
-  "$VERIF/bin/pegsim-instrument" "$SCR/repo" > "$SCR/instrument.json" 2> "$SCR/instrument.err" || { echo "instrumentation failed:"; cat "$SCR/instrument.err"; exit 2; }
+if [ ! -x "$VERIF/bin/pegsim-instrument" ]; then
+  mkdir -p "$VERIF/bin"
+  ( cd $VERIF/instrument && $GO build -o "$VERIF/bin/pegsim-instrument" . ) > "$SCR/instrument-build.log" 2>&1 || { echo "cannot build pegsim-instrument:"; tail -20 "$SCR/instrument-build.log"; exit 2; }
 fi
+SIMRT_DIR=$VERIF/pegsim/simrt "$VERIF/bin/pegsim-instrument" "$SCR/repo" > "$SCR/instrument.json" 2> "$SCR/instrument.err" || { echo "instrumentation failed (does /repo compile?):"; cat "$SCR/instrument.err"; exit 2; }
 # 2. harness module pointed at the scratch copy
 sed "s#=> /var/tmp/pegsim-scratch/repo#=> $SCR/repo#; s#=> ./simrt#=> $VERIF/pegsim/simrt#" $VERIF/pegsim/go.mod > "$SCR/go.mod"
 cp $VERIF/pegsim/go.sum "$SCR/go.sum" 2>/dev/null || cp /repo/go.sum "$SCR/go.sum"
